@@ -289,7 +289,7 @@ def plan(tier):
     for kind in ("BufferNumpy", "BufferByteArray"):
         for cap0, al, gs, ik, sizes in ((250, 1, None, "u8", (200, 100, 60)), (120, 8, None, "i8", (100, 27, 8)), (250, 4, 8, "u8", (100, 99, 7)),
                                         (32000, 1, None, "i16", (30000, 5000, 100)), (65000, 8, None, "u16", (60000, 6000, 24)), (250, 2, None, "i64", (200, 100, 60))):
-            out.append(((kind, cap0, al, gs, ik, sizes), 3 if tier == "quick" else 4))
+            out.append(((kind, cap0, al, gs, ik, sizes), (2 if cap0 > 1000 else 3) if tier == "quick" else (3 if cap0 > 1000 else 4)))
     if tier != "quick":
         for cap0, al, gs in itertools.product(CAPS, ALS, GSS):
             out.append((("BufferNumpy", cap0, al, gs), 5))
